@@ -131,7 +131,7 @@ def cases(rng, tier):
 
 def nontrivial(c, impl, verd): return " Anonempty" in verd and " Bnonempty" in verd
 def observe(dist, c, impl, verd):
-    for k in ("included", "notincluded", "Aempty", "Bempty", "timeout", "shared_table", "discriminates_shared_cache", "discriminates_careless_promotion", "discriminates_keyed_worklist", "down_model_out_of_fuel", "down_model_run"):
+    for k in ("included", "notincluded", "Aempty", "Bempty", "timeout", "shared_table", "discriminates_shared_cache", "discriminates_careless_promotion", "discriminates_keyed_worklist", "up_sim_model_run_nonidentity", "up_sim_model_run_identity", "down_model_out_of_fuel", "down_model_run"):
         if (" " + k) in verd: dist[k] = dist.get(k, 0) + 1
 def shrink_candidates(c): return gen.shrink_automata(c)
 def explain(c, impl, verd):
